@@ -783,7 +783,7 @@ theorem blockFinish_log (cfg : Cfg) (startT : Option Tree) (tn : Option Name) (r
     intro b s; unfold condExit; split
     · exact ⟨[Ev.exit], by simp⟩
     · exact LogExt.refl _
-  have hg := fun b g s => ghostIf_rel (L env) b g s
+  have hg := fun b g s => ghostIf_log b g s
   split
   · split
     · unfold blockCleanup
@@ -912,7 +912,7 @@ theorem seqNR_A (env : Env) {f : F} (hf : FA f) {q : Quirks} {cs : List Cls} {rc
         have hc := callCatch_A hf h1
         have m1 := D_mono hc.2
         have l2 : LogExt s1 s' := by
-          have := seqNR_rel (L env) hf.log q cs (t :: rc) s1; rw [heq] at this; exact this
+          have := seqNR_log env hf.log q cs (t :: rc) s1; rw [heq] at this; exact this
         have m2 := D_mono l2
         have hcc := hc.1 (by omega)
         simp only at hcc
@@ -958,7 +958,7 @@ theorem seqNR_A (env : Env) {f : F} (hf : FA f) {q : Quirks} {cs : List Cls} {rc
         have l1 : LogExt s s1 := by have := hf.log c s; rw [h1] at this; exact this
         have m1 := D_mono l1
         have l2 : LogExt s1 s' := by
-          have := seqNR_rel (L env) hf.log q cs (t :: rc) s1; rw [heq] at this; exact this
+          have := seqNR_log env hf.log q cs (t :: rc) s1; rw [heq] at this; exact this
         have m2 := D_mono l2
         have hcc := hf.spec _ _ _ _ h1 (by omega)
         simp only at hcc
@@ -1066,61 +1066,163 @@ theorem main0Match_A {f : F} (hf : FA f) {fuel : Nat} {cfg : Cfg} {scope : Name}
   · exact hbm'.shift' ka
   · trivial
 
-def PSpec (s0 : St) (r : PRes) (s' : St) : Prop :=
+def PSpec (q : Quirks) (s0 : St) (r : PRes) (s' : St) : Prop :=
   match r with
   | .done rc' => Acc s0 rc' s'
-  | .fail rc' .noMatch => Acc s0 rc' s'
+  | .retNone => s'.all = s0.all
+  | .fail rc' .noMatch => if q.programContinues then s'.all = s0.all else Acc s0 rc' s'
   | .fail _ _ => True
 
-theorem programLoop_A {f : F} (hf : FA f) {unit : Cls} {fuel k : Nat} {rc : List Tree} {s0 s : St}
-    {r : PRes} {s' : St} (hacc : Acc s0 rc s)
-    (heq : programLoop env f unit fuel k rc s = (r, s')) (hD : D s' = D s) : PSpec s0 r s' := by
+def USpec (q : Quirks) (s0 : St) (u : UnitStep) (s' : St) : Prop :=
+  match u with
+  | .go rc1 => Acc s0 rc1 s'
+  | .stop r => PSpec q s0 r s'
+
+theorem Acc.extend {s0 st st' : St} {rc c0 : List Tree} (h : Acc s0 rc st)
+    (ht : st.all = frontierL c0 ++ st'.all) : Acc s0 (c0.reverse ++ rc) st' := by
+  unfold Acc at *
+  rw [h, ht]
+  simp [frontierL_append]
+
+theorem unitStep_A {f : F} (hf : FA f) {fuel : Nat} {unit main0 : Cls} {rc : List Tree}
+    {s0 s : St} {u : UnitStep} {s' : St} (hacc : Acc s0 rc s)
+    (heq : unitStep env f fuel unit main0 rc s = (u, s')) (hD : D s' = D s) :
+    USpec env.tbl.quirks s0 u s' := by
+  have lall : LogExt s s' := by
+    have := unitStep_rel (L env) hf.log fuel unit main0 rc s; rw [heq] at this; exact this
+  unfold unitStep at heq
+  split at heq
+  · rename_i e s1 h1
+    have l1 : LogExt s s1 := by have := hf.log unit s; rw [h1] at this; exact this
+    have m1 := D_mono l1
+    split at heq
+    · rename_i hc
+      simp only [Bool.and_eq_true, beq_iff_eq] at hc
+      obtain ⟨rfl, hq⟩ := hc
+      have df : D (s1.ev (Ev.ghost Ghost.fallback)) = D s1 := D_ev_nondrop _ _ rfl
+      generalize hb : blockMatch env f fuel (fallbackCfg main0) (s1.ev (Ev.ghost Ghost.fallback))
+        = br at heq
+      obtain ⟨r2, s2⟩ := br
+      have l2 : LogExt (s1.ev (Ev.ghost Ghost.fallback)) s2 := by
+        have := blockMatch_rel (L env) hf.log fuel (fallbackCfg main0)
+          (s1.ev (Ev.ghost Ghost.fallback))
+        rw [hb] at this; exact this
+      have m2 := D_mono l2
+      cases r2 with
+      | tuple c0 =>
+        simp only at heq
+        inj2 heq
+        have e1 : s1.all = s.all := hf.spec _ _ _ _ h1 (by omega)
+        have hb' := blockMatch_A hf hb (by omega)
+        simp only [MRel, St.ev_all] at hb'
+        simp only [USpec]
+        exact (hacc.same e1).extend hb'
+      | none =>
+        simp only at heq
+        inj2 heq
+        have l3 := D_mono (ghostIf_log (!rc.isEmpty) Ghost.progDrop s2)
+        cases hrc : rc with
+        | cons t0 rc1 =>
+          exfalso
+          subst hrc
+          simp only [List.isEmpty_cons, Bool.not_false, ghostIf, if_true] at hD
+          rw [D_ev_drop _ _ rfl] at hD
+          omega
+        | nil =>
+          subst hrc
+          simp only [List.isEmpty_nil, Bool.not_true, ghostIf, Bool.false_eq_true, if_false] at hD ⊢
+          have e1 : s1.all = s.all := hf.spec _ _ _ _ h1 (by omega)
+          have hb' := blockMatch_A hf hb (by omega)
+          simp only [MRel, St.ev_all] at hb'
+          simp only [USpec, PSpec]
+          unfold Acc at hacc; simp [frontierL] at hacc
+          rw [hb', e1]; exact hacc.symm
+      | raise e2 =>
+        simp only at heq
+        inj2 heq
+        simp only [USpec, PSpec]
+        cases e2 with
+        | noMatch =>
+          simp only [hq, if_true]
+          cases hrc : rc with
+          | cons t0 rc1 =>
+            exfalso
+            subst hrc
+            simp only [beq_self_eq_true, List.isEmpty_cons, Bool.not_false, Bool.and_self,
+              ghostIf, if_true] at hD
+            rw [D_ev_drop _ _ rfl] at hD
+            omega
+          | nil =>
+            subst hrc
+            simp only [List.isEmpty_nil, Bool.not_true, Bool.and_false, ghostIf,
+              Bool.false_eq_true, if_false] at hD ⊢
+            have e1 : s1.all = s.all := hf.spec _ _ _ _ h1 (by omega)
+            have hb' := blockMatch_A hf hb (by omega)
+            simp only [MRel, St.ev_all] at hb'
+            unfold Acc at hacc; simp [frontierL] at hacc
+            rw [hb', e1]; exact hacc.symm
+        | _ => trivial
+    · rename_i hc
+      inj2 heq
+      simp only [USpec, PSpec]
+      cases e with
+      | noMatch =>
+        have hq : env.tbl.quirks.programContinues = false := by
+          simpa using hc
+        simp only [hq, Bool.false_eq_true, if_false]
+        exact hacc.same (hf.spec _ _ _ _ h1 hD)
+      | _ => trivial
+  · rename_i o s1 hne h1
+    inj2 heq
+    have := hf.spec _ _ _ _ h1 hD
+    simp only [USpec]
+    cases o with
+    | none => exact hacc.same this
+    | tree t => exact hacc.push this
+    | raise e => exact (hne e rfl).elim
+
+theorem programLoop_A {f : F} (hf : FA f) {unit main0 : Cls} {fuel k : Nat} {rc : List Tree}
+    {s0 s : St} {r : PRes} {s' : St} (hacc : Acc s0 rc s)
+    (heq : programLoop env f unit main0 fuel k rc s = (r, s')) (hD : D s' = D s) :
+    PSpec env.tbl.quirks s0 r s' := by
   induction k generalizing rc s with
   | zero => simp only [programLoop] at heq; inj2 heq; trivial
   | succ k ih =>
     simp only [programLoop] at heq
     split at heq
-    · rename_i e s1 h1
+    · rename_i r1 s1 h1
       inj2 heq
-      have := hf.spec _ _ _ _ h1 hD
-      simp only [PSpec]
-      cases e <;> first | trivial | exact hacc.same this
-    · rename_i o s1 hne h1
-      have l1 : LogExt s s1 := by have := hf.log unit s; rw [h1] at this; exact this
+      exact unitStep_A hf hacc h1 hD
+    · rename_i rc1 s1 h1
+      have l1 : LogExt s s1 := by
+        have := unitStep_rel (L env) hf.log fuel unit main0 rc s; rw [h1] at this; exact this
       have m1 := D_mono l1
-      have hspec := hf.spec _ _ _ _ h1
       split at heq
       · rename_i e s2 h2
         inj2 heq
         have := addCID_nm h2
         cases e <;> first | trivial | exact absurd rfl this
       · rename_i rc2 s2 h2
-        have hacc1 : D s1 = D s → Acc s0 (pushTree o rc) s1 := by
-          intro hd
-          have := hspec hd
-          cases o with
-          | none => exact hacc.same this
-          | tree t => exact hacc.push this
-          | raise e => exact (hne e rfl).elim
+        have d2 : D s2 = D s1 := addCID_D h2
         split at heq
         · rename_i s3 h3
           inj2 heq
           have d3 := St.get_D h3
           have a3 := (St.get_none_all h3).1
-          have d2 : D s2 = D s1 := addCID_D h2
-          have := (addCID_A (hacc1 (by omega)) h2).2 rc2 rfl
+          have hu : USpec env.tbl.quirks s0 (.go rc1) s1 := unitStep_A hf hacc h1 (by omega)
+          have := (addCID_A hu h2).2 rc2 rfl
           simp only [PSpec]
           exact this.same a3
         · rename_i it s3 h3
           have d3 := St.get_D h3
           have a3 := St.get_some_all h3
-          have d2 : D s2 = D s1 := addCID_D h2
           have l4 : LogExt (s3.put it) s' := by
-            have := programLoop_rel (L env) hf.log unit fuel k rc2 (s3.put it)
+            have := programLoop_rel (L env) hf.log unit main0 fuel k rc2 (s3.put it)
             rw [heq] at this; exact this
           have m4 := D_mono l4
           have dp : D (s3.put it) = D s3 := D_put _ _
-          have hacc2 := (addCID_A (hacc1 (by omega)) h2).2 rc2 rfl
+          have hu : USpec env.tbl.quirks s0 (.go rc1) s1 := unitStep_A hf hacc h1 (by omega)
+          have hacc2 := (addCID_A hu h2).2 rc2 rfl
           have hacc3 : Acc s0 rc2 (s3.put it) := hacc2.same (by simp [a3])
           exact ih hacc3 heq (by omega)
 
@@ -1143,40 +1245,57 @@ theorem programMatch_A {f : F} (hf : FA f) {fuel : Nat} {unit main0 : Cls} {s : 
       simp only [PSpec] at this
       simp only [MRel]
       exact this
-    · rename_i rc s2 h2
-      have l2 : LogExt s1 s2 := by
-        have := programLoop_rel (L env) hf.log unit fuel fuel rc0 s1; rw [h2] at this; exact this
-      have m2 := D_mono l2
-      generalize hs3 : ghostIf (!rc.isEmpty) Ghost.progDrop (s2.ev (Ev.ghost Ghost.fallback)) = s3
-        at heq
-      have l3 : LogExt s3 s' := by
-        have := blockMatch_rel (L env) hf.log fuel
-          { start := some main0, subs := [], end_ := none } s3
-        rw [heq] at this; exact this
-      have m3 := D_mono l3
-      have df : D (s2.ev (Ev.ghost Ghost.fallback)) = D s2 := D_ev_nondrop _ _ rfl
-      cases hrc : rc with
-      | cons t0 rc1 =>
-        exfalso
-        subst hrc
-        simp only [List.isEmpty_cons, Bool.not_false, ghostIf, if_true] at hs3
-        subst hs3
-        have : D ((s2.ev (Ev.ghost Ghost.fallback)).ev (Ev.ghost Ghost.progDrop)) = D s2 + 1 := by
-          rw [D_ev_drop _ _ rfl, df]
-        omega
-      | nil =>
-        subst hrc
-        simp only [List.isEmpty_nil, Bool.not_true, ghostIf, Bool.false_eq_true, if_false] at hs3
-        subst hs3
-        have hp := programLoop_A hf hacc0 h2 (by omega)
-        simp only [PSpec] at hp
-        have e2 : (s2.ev (Ev.ghost Ghost.fallback)).all = s.all := by
-          unfold Acc at hp; simp [frontierL] at hp; simpa using hp.symm
-        have hb := blockMatch_A hf heq (by omega)
-        exact hb.shift e2
-    · rename_i rc e s2 hne h2
+    · rename_i s2 h2
       inj2 heq
-      cases e <;> first | trivial | exact (hne _ _ rfl).elim
+      have := programLoop_A hf hacc0 h2 (by omega)
+      simp only [PSpec] at this
+      simp only [MRel]
+      exact this
+    · rename_i rc e s2 h2
+      have l2 : LogExt s1 s2 := by
+        have := programLoop_rel (L env) hf.log unit main0 fuel fuel rc0 s1
+        rw [h2] at this; exact this
+      have m2 := D_mono l2
+      split at heq
+      · rename_i hc
+        simp only [Bool.and_eq_true, beq_iff_eq, Bool.not_eq_true'] at hc
+        obtain ⟨rfl, hq⟩ := hc
+        generalize hs3 : ghostIf (!rc.isEmpty) Ghost.progDrop (s2.ev (Ev.ghost Ghost.fallback)) = s3
+          at heq
+        have l3 : LogExt s3 s' := by
+          have := blockMatch_rel (L env) hf.log fuel (fallbackCfg main0) s3
+          rw [heq] at this; exact this
+        have m3 := D_mono l3
+        have df : D (s2.ev (Ev.ghost Ghost.fallback)) = D s2 := D_ev_nondrop _ _ rfl
+        cases hrc : rc with
+        | cons t0 rc1 =>
+          exfalso
+          subst hrc
+          simp only [List.isEmpty_cons, Bool.not_false, ghostIf, if_true] at hs3
+          subst hs3
+          have : D ((s2.ev (Ev.ghost Ghost.fallback)).ev (Ev.ghost Ghost.progDrop)) = D s2 + 1 := by
+            rw [D_ev_drop _ _ rfl, df]
+          omega
+        | nil =>
+          subst hrc
+          simp only [List.isEmpty_nil, Bool.not_true, ghostIf, Bool.false_eq_true, if_false] at hs3
+          subst hs3
+          have hp := programLoop_A hf hacc0 h2 (by omega)
+          simp only [PSpec, hq, Bool.false_eq_true, if_false] at hp
+          have e2 : (s2.ev (Ev.ghost Ghost.fallback)).all = s.all := by
+            unfold Acc at hp; simp [frontierL] at hp; simpa using hp.symm
+          have hb := blockMatch_A hf heq (by omega)
+          exact hb.shift e2
+      · rename_i hc
+        inj2 heq
+        simp only [MRel]
+        cases e with
+        | noMatch =>
+          have hq : env.tbl.quirks.programContinues = true := by simpa using hc
+          have hp := programLoop_A hf hacc0 h2 (by omega)
+          simp only [PSpec, hq, if_true] at hp
+          exact hp
+        | _ => trivial
 
 def ARel (s0 : St) (o : Outcome) (s' : St) : Prop :=
   match o with
@@ -1301,7 +1420,7 @@ theorem eval_A (env : Env) (fuel : Nat) : GA (eval env fuel) := by
       generalize hb : seqNR env.tbl.quirks (fresh (eval env fuel)) cs [] s = br at heq
       obtain ⟨r, s1⟩ := br
       exact finish_A ih (fun hd => seqNR_A env hf (Acc.nil s) hb hd)
-        (by have := seqNR_rel (L env) hf.log env.tbl.quirks cs [] s; rw [hb] at this; exact this) heq
+        (by have := seqNR_log env hf.log env.tbl.quirks cs [] s; rw [hb] at this; exact this) heq
     · rename_i cfg scope subs _
       generalize hb : main0Match env (fresh (eval env fuel)) fuel cfg scope s = br at heq
       obtain ⟨r, s1⟩ := br
